@@ -156,14 +156,14 @@ def _worker(w, W, indices, engine, prop, master_seed, out_fd, n_samples, deadlin
             return out
 
         try:
-            recs = fork_call(many, wall_s=CHILD_WALL_S + 20 * K)
+            recs = fork_call(many, wall_s=45 + 4 * K)
             if hasattr(mod, "twin_many") and mod.needs_twin(prop):
                 plans = [r.get("plan") for r in recs]
 
                 def twin(seeds=seeds[: len(recs)]):
                     return mod.twin_many([mod.plan_run(sd, prop) for sd in seeds])
 
-                twins = fork_call(twin, wall_s=CHILD_WALL_S + 20 * K)
+                twins = fork_call(twin, wall_s=45 + 4 * K)
                 for r, t in zip(recs, twins):
                     mod.compare_twin(r, t)
             for r, i, seed in zip(recs, chunk, seeds):
